@@ -6,6 +6,7 @@ import OutrankModel.Drv.C14
 import OutrankModel.Drv.C16
 import OutrankModel.Drv.C18
 import OutrankModel.Drv.C05
+import OutrankModel.Drv.C13
 /-!
 Line-protocol driver (DESIGN §2.2): one request per line on stdin, one reply per line on stdout.
 Adds only parsing and printing around the definitions the theorems are about.  Each property contributes one
@@ -20,7 +21,8 @@ def handlers : List (String × Handler) := [
   ("C14", C14Drv.drv),
   ("C16", C16Drv.drv),
   ("C18", C18Drv.drv),
-  ("C05", C05Drv.drv)
+  ("C05", C05Drv.drv),
+  ("C13", C13Drv.drv)
 ]
 
 abbrev DState := List (String × Val)
